@@ -121,13 +121,11 @@ impl<K: ExpiredKey<E>, E: Expiration, V: Copy> KeyExpTree<K, E, V> {
 
     #[inline]
     fn is_part_of_the_tree(&self, index: u32) -> bool {
-        let mut prev = index;
-        let mut cursor = self.node(index).parent;
-        while cursor != 0 && cursor != EMPTY_REF && cursor != index {
-            prev = cursor;
+        let mut cursor = index;
+        loop {
             let parent_index = self.node(cursor).parent;
             if parent_index == EMPTY_REF {
-                break;
+                return cursor == self.root;
             }
             let parent = self.node(parent_index);
             if parent.left != cursor && parent.right != cursor {
@@ -135,6 +133,5 @@ impl<K: ExpiredKey<E>, E: Expiration, V: Copy> KeyExpTree<K, E, V> {
             }
             cursor = parent_index;
         }
-        prev == self.root
     }
 }
